@@ -14,7 +14,8 @@ ORACLE = ('an independent precedence-climbing evaluator over the table \\ > MOD 
           'definitions (truncating division, remainder with the sign of the dividend, bitwise on the 16-bit '
           'pattern, relational -1/0); Division by zero / Overflow when the reference operation has no result')
 BOUNDS = {'expressions': 'A% op1 B% op2 C% for ordered pairs of the 11 operators \\ MOD = < > <> AND OR XOR EQV '
-                         'IMP (quick: all 81 pairs without \\ and MOD plus 10 pairs with them; thorough: all 121), '
+                         'IMP (quick: all 81 pairs without \\ and MOD plus 5 pairs with one of them; thorough: all 117 pairs with '
+                         'at most one of \\ and MOD; expressions with two division-type operators are NOT claimed), '
                          'plus NOT in front of each operand position and one parenthesised form for a sample',
           'operands': 'every 16-bit value of A%, B%, C% (symbolic)',
           'outside': '^ * / + - and unary minus (they promote to floating point: their rounding is C04/C05, and '
@@ -135,8 +136,7 @@ def _backend(o1, o2, form):
     return 'BV'
 
 
-DIVPAIRS = [('\\', 'MOD'), ('MOD', '\\'), ('\\', '\\'), ('MOD', 'MOD'), ('\\', 'AND'), ('AND', '\\'),
-            ('MOD', 'OR'), ('=', '\\'), ('\\', '='), ('<', 'MOD')]
+DIVPAIRS = [('\\', 'AND'), ('AND', '\\'), ('MOD', 'OR'), ('=', '\\'), ('\\', '=')]
 
 
 def cases(tier):
@@ -144,11 +144,13 @@ def cases(tier):
     nodiv = [o for o in OPS if o not in ('\\', 'MOD')]
     pairs = [(a, b) for a in nodiv for b in nodiv] + DIVPAIRS
     if tier == 'thorough':
-        pairs = [(a, b) for a in OPS for b in OPS]
+        # every pair with at most one division-type operator (two of them in one expression --
+        # \ \, \ MOD, MOD \, MOD MOD -- compose two dividers and were not decided within 40 min)
+        pairs = [(a, b) for a in OPS for b in OPS if not (a in ('\\', 'MOD') and b in ('\\', 'MOD'))]
     for o1, o2 in pairs:
         cs.append(Case('plain %s %s' % (o1, o2), body_two, backend='BV',
                        params={'ops': (o1, o2)}, timeout_s=3000, query_timeout_ms=600000))
-    sample = [('\\', 'AND'), ('AND', '\\'), ('=', 'OR'), ('OR', '='), ('MOD', '\\'), ('\\', 'MOD'),
+    sample = [('\\', 'AND'), ('AND', '\\'), ('=', 'OR'), ('OR', '='),
               ('IMP', 'EQV'), ('XOR', 'AND'), ('<', 'AND')]
     for o1, o2 in (sample if tier != 'thorough' else pairs):
         for form in ('paren', 'not1', 'not2'):
